@@ -301,3 +301,19 @@ def compare_scalars(t, exp_vals, got, idxs, where, raw_ts=False):
             if le_bytes(a) != e:
                 return ['%s[%d]: %s, expected bytes %s' % (where, k, le_bytes(a).hex(), e.hex())]
     return []
+
+
+class ShortReadStream(io.BytesIO):
+    """A seekable stream whose readinto() hands over at most `piece` bytes per call although more are available
+    (pipes, sockets and unbuffered files behave like this); read(n) is complete, as the metadata parser expects."""
+
+    def __init__(self, data, piece):
+        super().__init__(data)
+        self.piece = max(1, piece)
+
+    def readinto(self, buf):
+        mv = memoryview(buf).cast('B')
+        n = min(len(mv), self.piece)
+        if n == 0:
+            return 0
+        return super().readinto(mv[:n])
